@@ -40,6 +40,13 @@ type Config struct {
 	// ReportKnown: report a violation even when its signature is a listed
 	// known finding (set in the replay files of those findings).
 	ReportKnown bool `json:"reportKnown,omitempty"`
+	// PendingBatch > 0: how many pending blobs one round of the sync loop
+	// takes from the in-memory list (1000 in perkeep; lowered through the
+	// overlay's knob so that several rounds are needed in short histories).
+	PendingBatch int `json:"pendingBatch,omitempty"`
+	// WorkBuf > 0: capacity of the channel runSync feeds its copy workers
+	// through (1000 in perkeep; always >= PendingBatch, as in perkeep).
+	WorkBuf int `json:"workBuf,omitempty"`
 }
 
 // Op is one element of Plan.Ops.
@@ -129,8 +136,15 @@ func gen(tier string, run int, r *simcore.Rand) *harness.Plan {
 		cfg.Blobs[r.Intn(len(cfg.Blobs))].Size = 16<<20 - r.Intn(2)
 	}
 
-	if (cfg.FullSync || cfg.Validate) && r.Bool(0.7) {
-		extra := sim.GenBlobSpecs(r, r.Range(1, 3), 3000)
+	// backlog: a full sync over a source that holds more blobs than runSync's
+	// work buffer (lowered through the knob) takes in one go
+	backlog := cfg.FullSync && r.Bool(0.3)
+	if (cfg.FullSync || cfg.Validate) && (backlog || r.Bool(0.7)) {
+		nextra := r.Range(1, 3)
+		if backlog {
+			nextra = r.Range(12, 30)
+		}
+		extra := sim.GenBlobSpecs(r, nextra, 3000)
 		for i := range extra {
 			if extra[i].Size < 4 {
 				extra[i].Size = 40 + i
@@ -286,6 +300,16 @@ func gen(tier string, run int, r *simcore.Rand) *harness.Plan {
 		return a.K < b.K
 	})
 
+	if r.Bool(0.4) {
+		cfg.PendingBatch = []int{1, 1, 2, 3}[r.Intn(4)]
+		if r.Bool(0.5) {
+			cfg.WorkBuf = cfg.PendingBatch + r.Intn(3)
+		}
+	}
+	if backlog {
+		cfg.WorkBuf = r.Range(1, 3)
+		cfg.PendingBatch = r.Range(1, cfg.WorkBuf)
+	}
 	p := &harness.Plan{Mode: mode, Bubble: true, Config: harness.MustJSON(cfg), Faults: faults}
 	p.LockYield = []int{0, 0, 30, 300}[r.Intn(4)]
 	p.Sticky = []int{0, 0, 500, 900}[r.Intn(4)]
